@@ -82,12 +82,15 @@ K = {
     },
     "C09": {
         "prefix": r"c09_", "jobs": 8, "quick_timeout": 900,
-        "functions": ["vm::VmGreenThread::step (ChannelWrite, ChannelRead)", "ChannelObject::{read_value, write_value, copy}", "Value::deep_copy"],
-        "bounds": "one-step harnesses on two real threads sharing one queue of 0, 1, 2 (reads: also 3) symbolic values (length concrete per harness): write "
-                  "appends at the back, read takes the front and copies it into the reader's heap, an empty read rewinds pc only; plus the "
-                  "ownership obligation 'what the queue holds after a write does not belong to the writer's heap' (a finished writer is "
-                  "dropped by the scheduler and its heap freed). Order and exactly-once follow by induction over these steps. Outside: OS "
-                  "threads, queues longer than 3.",
+        "functions": ["vm::VmGreenThread::step (ChannelWrite, ChannelRead on an empty channel)", "ChannelObject::{read_value, write_value, copy}",
+                      "ChannelValue::from_value (string, scalar), the string / scalar cases of ChannelValue::into_value"],
+        "bounds": "one real ChannelWrite step onto queues of 0, 1 or 2 symbolic values: appends at the back, never blocks, and what it queues owns its "
+                  "contents (not a pointer into the writer's heap: a finished writer is dropped by the scheduler and its heap freed); the real "
+                  "ChannelObject::read_value on queues of 1, 2 or 3 symbolic values takes the front and keeps the rest in order; a real ChannelRead "
+                  "step on an empty channel rewinds pc only; the conversions out of the writer's heap and into the reader's heap for strings <= 2 "
+                  "bytes and scalars. Order and exactly-once follow by induction over these steps. Outside: the non-empty path of the ChannelRead "
+                  "arm as a whole (read_value -> into_value -> push: the arm owns an Option<ChannelValue>, a recursive type whose drop glue CBMC "
+                  "cannot fold, > 900 s measured), arrays / structs / variants / channels in flight (same recursion), OS threads, queues longer than 3.",
         "assumptions": ["std::collections::VecDeque and Mutex behave as documented (single-threaded under Kani)"],
     },
     "C31": {
